@@ -6,7 +6,7 @@ import subprocess
 
 from .common import REPO, VERIF
 
-BUILT = ["C02", "C05", "C06", "C08", "C10", "C11", "C12", "C13", "C15", "C16", "C19"]
+BUILT = ["C01", "C02", "C05", "C06", "C08", "C10", "C11", "C12", "C13", "C15", "C16", "C19"]
 
 NA = {
     "C03": "pure function of the program text: deciding it needs an independent interpreter over generated programs (differential input testing); no schedule, clock, stream or fault in the property. Collections during compilation are exercised under C02.",
